@@ -7,5 +7,47 @@ def run(chk, ctx):
     chk.cov['rule'] = ("each random strict-ranking election is renumbered by a random permutation (names, tie order, ballots carried along) and "
                        "counted again: same winners by name and same final tallies; and every election with withdrawn candidates is compared with the election "
                        "in which they are deleted: identical record by name; scope vs model: statuses and values")
-    cc.run(chk, ctx, 'values', ORACLES, 500, 60000, families=['small', 'tie', 'nearquota', 'chain', 'withdrawn', 'withdrawn', 'mid'], tweak=tweak)
+    cc.run(chk, ctx, 'values', ORACLES, 500, 60000, families=['small', 'tie', 'nearquota', 'chain', 'withdrawn', 'withdrawn', 'mid', 'cross'], tweak=tweak,
+           extra=[('directed-ties', 300, 20000, ['scotland', 'scotland', 'scotland', 'wigm', 'meek', 'mpls', 'qpq', 'cfer'], ['cross', 'tie'])])
+    small_electorates(chk, ctx)
+
+def small_electorates(chk, ctx):
+    """withdrawn means absent, at the edge of validity: few ballots, several withdrawn candidates; the file that marks them
+    and the file from which they are deleted must be accepted or rejected alike, with the same winners and tallies by name"""
+    import count_driver as cd
+    from common import rng_for
+    rng = rng_for(chk.seed, 'c11-small')
+    n = 150 if ctx['tier'] == 'quick' else 6000
+    pairs = []
+    for _ in range(n):
+        nc = rng.randint(3, 7)
+        wd = sorted(rng.sample(range(1, nc + 1), rng.randint(1, min(3, nc - 2))))
+        elig = [c for c in range(1, nc + 1) if c not in wd]
+        seats = rng.randint(1, max(1, len(elig) - 1))
+        nb = rng.randint(max(1, len(elig) - 1), nc + 1)          # around len(eligible) .. nCand
+        lines = []
+        for _ in range(nb):
+            r = rng.sample(range(1, nc + 1), rng.randint(1, nc))
+            if not [c for c in r if c not in wd]: r.append(rng.choice(elig))
+            lines.append((1, r))
+        names = ['c%d' % i for i in range(1, nc + 1)]
+        tie = list(range(1, nc + 1)); rng.shuffle(tie)
+        e = dict(n=nc, s=seats, wd=wd, und=[], tie=tie, lines=lines, eq=[], names=names)
+        ren = {c: i + 1 for i, c in enumerate(elig)}
+        lines2 = [(m, [ren[c] for c in r if c in ren]) for m, r in lines]
+        e2 = dict(n=len(elig), s=seats, wd=[], und=[], tie=[ren[c] for c in tie if c in ren], lines=[l for l in lines2 if l[1]], eq=[],
+                  names=[names[c - 1] for c in elig])
+        o = cd.gen_options(rng)
+        pairs.append((cd.render_blt(e), cd.render_blt(e2), o))
+    res = cd.run_cases([(a, o) for a, b, o in pairs] + [(b, o) for a, b, o in pairs], oracle_names=['final_by_name'], timeout=15, use_model=False)
+    k = len(pairs)
+    for i, (a, b, o) in enumerate(pairs):
+        x, y = res[i], res[i + k]
+        chk.count(); chk.nontrivial(('small-wd', o['rule'], x['status'].split(':')[0], y['status'].split(':')[0]))
+        if 'timeout' in (x['status'], y['status']): continue
+        fx = [v['detail'] for nm, v in x['oracle'] if isinstance(v, dict)]; fy = [v['detail'] for nm, v in y['oracle'] if isinstance(v, dict)]
+        if x['status'].split(':')[0] != y['status'].split(':')[0] or fx != fy:
+            chk.violation("withdrawing candidates is not the same as deleting them: marked file -> %s %s, deleted file -> %s %s" %
+                          (x['status'], fx[:1], y['status'], fy[:1]),
+                          dict(blt=a, deleted_blt=b, options=o, kind='c11-withdrawn-small'), signature=dict(kind='c11-withdrawn-small', rule=o['rule']))
 def replay(chk, payload): return cc.replay(chk, payload, ORACLES)
